@@ -156,6 +156,12 @@ def run_once(strategy, cfg, comps, reference, norm, tol, min_ev, max_ev, prior=N
         c.vobs = obs
         f.since_mark = None
         f.eval_points.clear()      # harness-side memo / counters start again for the observed run
+    # the limits are numbers: python ints, floats or numpy scalars (the same values)
+    lt = cfg.get("limit_types", 0)
+    if lt == 1:
+        max_ev, min_ev, tol = float(max_ev), float(min_ev), np.float64(tol)
+    elif lt == 2:
+        max_ev, min_ev, tol = np.int64(max_ev), np.int64(min_ev), (int(tol) if float(tol).is_integer() else tol)
     with contextlib.redirect_stdout(io.StringIO()):
         try:
             r = c.performSpatiallyAdaptiv(cfg["lmin"], cfg["lmax"], err, tol=tol, max_evaluations=max_ev, min_evaluations=min_ev,
@@ -272,6 +278,9 @@ def run_case(case, res):
     if strategy != "cell" and rng.random() < 0.2:
         prior = rng.choice([1, 40, 90])
         res.count("second_run_on_same_object")
+    cfg["limit_types"] = rng.choice([0, 0, 0, 0, 1, 2])
+    if cfg["limit_types"]:
+        res.count("limits_given_as_float_or_numpy_scalars")
     c, f, obs, r = run_once(strategy, cfg, comps, reference, norm, tol, min_ev, max_ev, prior=prior)
     if r is None:
         res.note("ended_by_harness_guard(livelock or depth cap):" + strategy)
